@@ -44,7 +44,7 @@ func init() {
 		},
 		Quick:    100000,
 		Thorough: 1000000,
-		Require:  []string{"request.afterAdversarialEvent", "discovery.duplicateTokenRefused", "discovery.sendFails", "listener.transientAcceptError", "discovery.foreignToken", "server.closesPeer"},
+		Require:  []string{"request.afterAdversarialEvent", "discovery.duplicateTokenRefused", "discovery.sendFails", "listener.transientAcceptError", "discovery.foreignToken", "server.closesPeer", "server.keepAliveMode", "keepalive.pingAnsweredByClient"},
 		Assume: []string{
 			"transcripts are compared on code, token, options and payload, not on message IDs; adversaries never spoof a well-behaved peer's source address; handlers never block",
 			"a well-behaved peer whose own traffic was corrupted by the network is exempt from the isolation comparison",
@@ -176,6 +176,9 @@ type c10World struct {
 	conns    map[string][]interface{ Close() error }
 	clients  []*c10Client
 	label    string
+	// keep-alive mode: the servers ping idle peers; well-behaved clients answer every ping at once
+	keepAlive       bool
+	closedByMonitor map[string]int
 }
 
 // c10MonitorOpts replaces the (practically switched off) default inactivity monitor of the servers.
@@ -190,10 +193,19 @@ func c10NewWorld(e *Env, kind, label string, nClients int) *c10World {
 }
 
 func c10NewWorldMon(e *Env, kind, label string, nClients int, mon *c10MonitorOpts) *c10World {
-	w := &c10World{e: e, kind: kind, label: label, newConns: map[string]int{}, maxLive: map[string]int{}, handled: map[string][]int{}, counts: map[string]int{},
+	return c10NewWorldMonInto(&c10World{}, e, kind, label, nClients, mon)
+}
+
+func c10NewWorldMonInto(w *c10World, e *Env, kind, label string, nClients int, mon *c10MonitorOpts) *c10World {
+	*w = c10World{e: e, kind: kind, label: label, newConns: map[string]int{}, maxLive: map[string]int{}, handled: map[string][]int{}, counts: map[string]int{},
 		conns: map[string][]interface{ Close() error }{}, srvAddr: UDPAddr("10.0.0.100", 5683)}
 	router := mux.NewRouter()
 	router.DefaultHandle(mux.HandlerFunc(func(rw mux.ResponseWriter, r *mux.Message) {
+		if r.Code() == codes.Empty {
+			// a reset / empty acknowledgement (e.g. the pong of a keep-alive ping) is handed to the application's
+			// handler as well: an application ignores it
+			return
+		}
 		remote := rw.Conn().RemoteAddr().String()
 		q, _ := r.Options().Queries()
 		n := -1
@@ -400,6 +412,66 @@ func (w *c10World) exchange(c *c10Client, path string, payload []byte, con bool)
 	return out
 }
 
+// answerPings: every well-behaved client answers the keep-alive pings the server has sent it, at once.
+func (w *c10World) answerPings() {
+	any := false
+	for _, c := range w.clients {
+		switch w.kind {
+		case "udp":
+			for _, p := range w.dn.PendingList() {
+				if p.Dst.String() != c.addr.String() {
+					continue
+				}
+				if r, err := DecodeUDP(p.Data); err == nil && r.Type == TCON && r.Code == 0 {
+					w.dn.Take(p)
+					a := w.dn.Inject(c.addr, w.srvAddr, EncodeUDP(&WMsg{Type: TRST, MID: r.MID}))
+					w.dn.Take(a)
+					w.dn.Deliver(a)
+					any = true
+					w.e.Probe("keepalive.pingAnsweredByClient")
+				}
+			}
+		case "dtls":
+			if c.pc == nil {
+				continue
+			}
+			for _, b := range c.pc.TakeOut() {
+				if r, err := DecodeUDP(b); err == nil && r.Type == TCON && r.Code == 0 {
+					c.pc.Deliver(EncodeUDP(&WMsg{Type: TRST, MID: r.MID}))
+					any = true
+					w.e.Probe("keepalive.pingAnsweredByClient")
+				}
+			}
+		case "tcp":
+			if c.sc == nil {
+				continue
+			}
+			c.rx = append(c.rx, c.sc.peer.TakeOut()...)
+			rest := c.rx[:0:0]
+			buf := c.rx
+			for len(buf) > 0 {
+				r, k, err := DecodeTCP(buf)
+				if err != nil || k == 0 {
+					break
+				}
+				if r.Code == 0xe2 {
+					c.sc.peer.InjectIn(EncodeTCP(&WMsg{Code: 0xe3, Token: r.Token}))
+					c.sc.peer.ReleaseIn(1 << 30)
+					any = true
+					w.e.Probe("keepalive.pingAnsweredByClient")
+				} else {
+					rest = append(rest, buf[:k]...)
+				}
+				buf = buf[k:]
+			}
+			c.rx = append(rest, buf...)
+		}
+	}
+	if any {
+		w.e.Wait()
+	}
+}
+
 func (w *c10World) tick(now time.Time) {
 	w.mu.Lock()
 	fs := append([]func(now time.Time) bool(nil), w.ticks...)
@@ -442,6 +514,9 @@ func (w *c10World) apply(s c10Step) {
 		w.tick(time.Now())
 		e.Wait()
 		e.Logf("[%s] advance %v + tick", w.label, s.dt)
+		if w.keepAlive {
+			w.answerPings()
+		}
 	case 2:
 		c := w.clients[s.client]
 		remote := c.addr.String()
@@ -466,8 +541,42 @@ func c10Twin(e *Env, kind string) {
 	t := e.Tape
 	nClients := 2 + t.Choose(3)
 	nAdv := 1 + t.Choose(3)
-	w1 := c10NewWorld(e, kind, "run", nClients)
-	e.Logf("cfg server=%s clients=%d adversaries=%d", kind, nClients, nAdv)
+	// one run in three: the server guards its connections with keep-alive (period 4 s, 2 retries); the well-behaved
+	// clients answer every ping, the adversaries none
+	keepAlive := t.Chance(1, 3)
+	mkWorld := func(label string) *c10World {
+		if !keepAlive {
+			return c10NewWorld(e, kind, label, nClients)
+		}
+		closedBy := map[string]int{}
+		var wref *c10World
+		onU := func(cc *udpClient.Conn) {
+			wref.mu.Lock()
+			closedBy[cc.RemoteAddr().String()]++
+			wref.mu.Unlock()
+			_ = cc.Close()
+		}
+		onT := func(cc *tcpClient.Conn) {
+			wref.mu.Lock()
+			closedBy[cc.RemoteAddr().String()]++
+			wref.mu.Unlock()
+			_ = cc.Close()
+		}
+		mon := &c10MonitorOpts{
+			UDP:  func() udpServer.Option { return options.WithKeepAlive(2, 12*time.Second, onU) },
+			DTLS: func() dtlsServer.Option { return options.WithKeepAlive(2, 12*time.Second, onU) },
+			TCP:  func() tcpServer.Option { return options.WithKeepAlive(2, 12*time.Second, onT) },
+		}
+		wref = &c10World{}
+		w := c10NewWorldMonInto(wref, e, kind, label, nClients, mon)
+		w.keepAlive, w.closedByMonitor = true, closedBy
+		return w
+	}
+	w1 := mkWorld("run")
+	if keepAlive {
+		e.Probe("server.keepAliveMode")
+	}
+	e.Logf("cfg server=%s clients=%d adversaries=%d keep-alive=%v", kind, nClients, nAdv, keepAlive)
 	// adversaries
 	type adversary struct {
 		addr *net.UDPAddr
@@ -682,7 +791,17 @@ func c10Twin(e *Env, kind string) {
 	w1.mu.Unlock()
 
 	// ---- the twin: same well-behaved script, fresh server, no adversaries
-	w2 := c10NewWorld(e, kind, "twin", nClients)
+	if keepAlive {
+		// a well-behaved client answered every ping: the monitor has no reason to give up on it, whatever the others do
+		w1.mu.Lock()
+		for _, c := range w1.clients {
+			if n := w1.closedByMonitor[c.addr.String()]; n > 0 && !c.exempt {
+				e.Violate("C10.R7", "answering-peer-closed-by-keep-alive:"+kind, "client %d (%s) answered every keep-alive ping at once and was reported inactive %d times while %d adversarial peers were around", c.id, c.addr, n, nAdv)
+			}
+		}
+		w1.mu.Unlock()
+	}
+	w2 := mkWorld("twin")
 	for _, s := range script {
 		w2.apply(s)
 	}
